@@ -176,7 +176,6 @@ func raceChild() {
 	os.Exit(0)
 }
 
-
 // ---------------------------------------------------------------- hand-off (retention) runs
 
 // renderSeq is the canonical rendering of one delivered sequence (a deep copy: nothing of the
@@ -232,22 +231,45 @@ func renderSeq(items []parsehx.Item, seq ansi.Sequence) []parsehx.Item {
 // receive so that the parser runs ahead as far as its channel lets it.  Every kept sequence is
 // deep-copied on delivery and compared with what it reads as after the parser stopped.
 func runKeep(chunks [][]byte, keep func(i int) bool, lag time.Duration, timeout time.Duration) parsehx.Result {
+	res, _ := runKeepLater(chunks, keep, lag, timeout)
+	return res
+}
+
+// laterItem: a sequence the consumer kept, where it stands in the delivered items, and what it
+// reads as after the parser stopped
+type laterItem struct {
+	Pos  int          `json:"pos"`
+	Item parsehx.Item `json:"reads"`
+}
+
+func runKeepLater(chunks [][]byte, keep func(i int) bool, lag time.Duration, timeout time.Duration) (parsehx.Result, []laterItem) {
 	var res parsehx.Result
+	var later []laterItem
 	for attempt := 0; attempt <= hx.TimerEscRetries; attempt++ {
 		var timerEsc bool
-		res, timerEsc = runKeepOnce(chunks, keep, lag, timeout)
+		res, later, timerEsc = runKeepOnce(chunks, keep, lag, timeout)
 		if !timerEsc || res.Hung {
 			break
 		}
 	}
-	return res
+	return res, later
 }
 
-func runKeepOnce(chunks [][]byte, keep func(i int) bool, lag time.Duration, timeout time.Duration) (res parsehx.Result, timerEsc bool) {
+// carriesBuffer: the sequence hands slices of the parser's to the consumer
+func carriesBuffer(seq ansi.Sequence) bool {
+	switch seq.(type) {
+	case ansi.ESC, ansi.CSI, ansi.OSC, ansi.DCS:
+		return true
+	}
+	return false
+}
+
+func runKeepOnce(chunks [][]byte, keep func(i int) bool, lag time.Duration, timeout time.Duration) (res parsehx.Result, later []laterItem, timerEsc bool) {
 	p := ansi.NewParser(&parsehx.ChunkReader{Chunks: chunks})
 	type retained struct {
 		seq  ansi.Sequence
 		copy string
+		pos  int
 	}
 	var kept []retained
 	done := make(chan struct{})
@@ -282,7 +304,7 @@ func runKeepOnce(chunks [][]byte, keep func(i int) bool, lag time.Duration, time
 			}
 			res.Items = renderSeq(res.Items, seq)
 			if keep(i) {
-				kept = append(kept, retained{seq, fmt.Sprintf("%#v", seq)})
+				kept = append(kept, retained{seq, fmt.Sprintf("%#v", seq), len(res.Items) - 1})
 			} else {
 				p.Finish(seq)
 			}
@@ -294,15 +316,75 @@ func runKeepOnce(chunks [][]byte, keep func(i int) bool, lag time.Duration, time
 	case <-done:
 	case <-time.After(timeout):
 		res.Hung = true
-		return res, timerEsc
+		return res, nil, timerEsc
 	}
 	for _, k := range kept {
-		if now := fmt.Sprintf("%#v", k.seq); now != k.copy {
+		if now := fmt.Sprintf("%#v", k.seq); now != k.copy && res.Mutated == "" {
 			res.Mutated = fmt.Sprintf("delivered %s, later reads %s", k.copy, now)
-			break
+		}
+		if carriesBuffer(k.seq) {
+			later = append(later, laterItem{Pos: k.pos, Item: renderSeq(nil, k.seq)[0]})
 		}
 	}
-	return res, timerEsc
+	return res, later, timerEsc
+}
+
+// ---------------------------------------------------------------- partial hand-back
+
+// burstKinds: families of sequences that take storage from the parser's pools (parameter
+// slices, the parameter list, intermediates) or hand a data buffer over.  Values are drawn from
+// a counter so that no two sequences of a stream carry the same numbers: re-use of one
+// sequence's storage by another is visible whatever the pool hands out.
+var burstKinds = []string{"csi-2", "csi-3", "csi-4", "csi-5", "csi-7", "csi-sub", "csi-mouse", "csi-priv-inter", "csi-inter-only", "esc-inter", "dcs", "osc", "mixed"}
+
+func burstSeq(kind string, n *int, r *rand.Rand) string {
+	next := func() int { *n++; return 100 + *n }
+	nums := func(k int, sep string) string {
+		var parts []string
+		for i := 0; i < k; i++ {
+			parts = append(parts, strconv.Itoa(next()))
+		}
+		return strings.Join(parts, sep)
+	}
+	inter := func() string {
+		v := next()
+		return string(rune(0x20+v%16)) + string(rune(0x20+(v/16)%16))
+	}
+	if strings.HasPrefix(kind, "csi-") {
+		if k, err := strconv.Atoi(kind[4:]); err == nil {
+			return "\x1b[" + nums(k, ";") + "m"
+		}
+	}
+	switch kind {
+	case "csi-sub":
+		return "\x1b[" + nums(2, ":") + ";" + nums(5, ":") + ";" + nums(1, ":") + "m"
+	case "csi-mouse":
+		return "\x1b[<" + nums(3, ";") + "M"
+	case "csi-priv-inter":
+		return "\x1b[" + string(rune(0x3c+next()%4)) + nums(2, ";") + inter() + "p"
+	case "csi-inter-only":
+		return "\x1b[" + string(rune(0x3c+next()%4)) + inter() + "q"
+	case "esc-inter":
+		return "\x1b" + inter() + "B"
+	case "dcs":
+		return "\x1bP" + nums(2, ";") + inter() + "q" + "data-" + strconv.Itoa(next()) + "\x1b\\"
+	case "osc":
+		return "\x1b]" + strconv.Itoa(next()) + ";payload-" + strconv.Itoa(next()) + "\x07"
+	}
+	// mixed: any family, the multi-parameter CSIs more often
+	ks := burstKinds[:len(burstKinds)-1]
+	if r != nil {
+		if r.Intn(2) == 0 {
+			return burstSeq(ks[r.Intn(7)], n, r)
+		}
+		return burstSeq(ks[r.Intn(len(ks))], n, r)
+	}
+	return burstSeq(ks[*n%len(ks)], n, r)
+}
+
+// handBack: "Finish every k-th sequence (those with index = off mod k), keep the rest"
+func handBack(k, off int) (func(int) bool, string) {
+	return func(i int) bool { return i%k != off%k }, fmt.Sprintf("finish every %d. sequence (offset %d), keep the rest", k, off%k)
 }
 
 func pick(r *rand.Rand, xs ...string) string { return xs[r.Intn(len(xs))] }
@@ -493,6 +575,104 @@ func main() {
 		addKeep(b, chunks, keep, lag, "retain-random "+policy, "retain-random")
 	}
 
+	// 1d. PARTIAL hand-back (stream "retain"): the consumer hands some sequences back with Finish
+	// and keeps the others, so the pools are neither empty (keep everything) nor in step with the
+	// consumer (finish everything): storage that came back is handed out again while sequences
+	// delivered in between are still held.  Bursts of sequences of every family that takes storage
+	// from a pool (CSIs with 2..7 parameters, sub-parameters, private marker + intermediates,
+	// ESC / DCS with intermediates) and of the data-carrying kinds, all numbers distinct within a
+	// stream; policies: finish every k-th sequence (k = 2..6, every offset) and keep the rest,
+	// finish a prefix then keep everything, a random subset; consumer in step or lagging.  Every
+	// kept buffer-carrying sequence is rendered again after the parser stopped; the case carries
+	// (input, delivered deep copies, position and later reading of each kept sequence).
+	retain := hx.NewStream("retain", "model.Parser model.ParserCheck model.ParserRetain", "rcase", "c08_retain_mismatches", "c08_retain_violations")
+	retain.ShardMax = 50
+	addRetain := func(stream []byte, chunks [][]byte, keep func(int) bool, lag time.Duration, policy, tag string) {
+		res, later := runKeepLater(chunks, keep, lag, 5*time.Second)
+		js := map[string]interface{}{"segments": [][]int{ints(stream)}, "end": "eof", "items": res.Items, "eofs": res.EOFs,
+			"kind": "retain-partial", "policy": policy, "kept_read_later": later, "input": string(stream)}
+		if res.Hung || res.Panic != "" || !res.Closed || res.AfterEOF != 0 {
+			mu.Lock()
+			direct = append(direct, hx.DirectViolation{Class: "parser-lifecycle", Case: js,
+				What: fmt.Sprintf("hung=%v panic=%q closed=%v eofs=%d afterEOF=%d", res.Hung, res.Panic, res.Closed, res.EOFs, res.AfterEOF)})
+			mu.Unlock()
+			return
+		}
+		var ls []string
+		for _, l := range later {
+			it := parsehx.CoqItems([]parsehx.Item{l.Item}, 0)
+			ls = append(ls, hx.Tuple(hx.Z(int64(l.Pos)), "("+it[1:len(it)-1]+")"))
+		}
+		retain.Add(hx.Tuple(parsehx.CoqSegments([][]byte{stream}), parsehx.CoqItems(res.Items, res.EOFs), hx.List(ls)), js, len(later) > 0, tag)
+	}
+	burst := func(kind string, count int, r *rand.Rand) []byte {
+		n := 0
+		var b []byte
+		for i := 0; i < count; i++ {
+			b = append(b, burstSeq(kind, &n, r)...)
+		}
+		return b
+	}
+	// directed: every family x "finish every k-th" for k = 2..5 at a rotating offset
+	for ki, kind := range burstKinds {
+		for k := 2; k <= 5; k++ {
+			stream := burst(kind, 16, nil)
+			keep, policy := handBack(k, ki+k)
+			lag := time.Duration(0)
+			if (ki+k)%3 == 0 {
+				lag = 200 * time.Microsecond
+			}
+			addRetain(stream, [][]byte{stream}, keep, lag, policy, "retain-partial directed")
+		}
+	}
+	// directed: a multi-parameter sequence handed back, then sequences with parameters kept (every
+	// pair of parameter counts 1..5 for the handed-back and the kept ones)
+	for a := 1; a <= 5; a++ {
+		for b := 1; b <= 5; b++ {
+			n := 0
+			var stream []byte
+			for round := 0; round < 4; round++ {
+				stream = append(stream, burstSeq("csi-"+strconv.Itoa(a), &n, nil)...)
+				for j := 0; j < 3; j++ {
+					stream = append(stream, burstSeq("csi-"+strconv.Itoa(b), &n, nil)...)
+				}
+			}
+			addRetain(stream, [][]byte{stream}, func(i int) bool { return i%4 != 0 }, 0,
+				fmt.Sprintf("finish the CSI with %d parameter(s) that opens each group of four, keep the three with %d that follow", a, b), "retain-partial directed")
+		}
+	}
+	// random: mixed bursts, any policy, any read chunking, consumer in step or lagging
+	nPartial := 70
+	if cfg.Thorough() {
+		nPartial = 3000
+	}
+	for i := 0; i < nPartial; i++ {
+		kind := burstKinds[cfg.Rand.Intn(len(burstKinds))]
+		if cfg.Rand.Intn(2) == 0 {
+			kind = "mixed"
+		}
+		stream := burst(kind, 8+cfg.Rand.Intn(17), cfg.Rand)
+		chunks := [][]byte{stream}
+		if cfg.Rand.Intn(3) == 0 {
+			cs := parsehx.Chunkings(cfg.Rand, stream, 3)
+			chunks = cs[cfg.Rand.Intn(len(cs))]
+		}
+		var keep func(int) bool
+		policy := ""
+		switch cfg.Rand.Intn(4) {
+		case 0, 1:
+			keep, policy = handBack(2+cfg.Rand.Intn(5), cfg.Rand.Intn(6))
+		case 2:
+			j := 1 + cfg.Rand.Intn(6)
+			keep, policy = func(i int) bool { return i >= j }, fmt.Sprintf("finish the first %d sequences, keep the rest", j)
+		default:
+			mask, d := cfg.Rand.Uint64()&cfg.Rand.Uint64(), cfg.Rand.Intn(64)
+			keep, policy = func(i int) bool { return mask>>(uint(i+d)%64)&1 == 0 }, fmt.Sprintf("finish a random quarter (mask %x, shift %d), keep the rest", mask, d)
+		}
+		lag := time.Duration(cfg.Rand.Intn(3)) * 150 * time.Microsecond
+		addRetain(stream, chunks, keep, lag, policy, "retain-partial random")
+	}
+
 	// 2. Escape timing: segments separated by real silence (40 ms >> the 10 ms timer)
 	heads := []string{"", "a", "\x1b[1", "\x1b]ab", "\x1b]", "\x1bPq", "\x1bPqz", "\x1b_G", "\x1bX", "\x1bO", "\x1b ", "\x1b[1;2", "é"}
 	tails := []string{"", "a", "\\", "[A", "\x1b\\", "\x1b", "OP", "]x\x07", "\x18", "é"}
@@ -672,6 +852,6 @@ func main() {
 				true, "child")
 		}
 	}
-	cfg.Write("C08", "race: child processes stress ESC followed about 10 ms later by the end of input or by \"[A\" (a send on the closed channel panics the child; a late callback garbles ESC [ A); truncate: grammar-generated streams cut at EVERY byte offset, ended by EOF or by a read error (alternating), read in one or two chunks, half of the runs retaining every delivered sequence without Finish (deep copies compared at the end); retain-pair / retain-class / retain-random: sequences of every buffer-carrying kind with and without private marker, intermediates, parameters and data, kept without Finish (all, every other, a random half) by a consumer that may lag behind, followed by sequences that collect intermediates / parameters / data (complete, cut by the end of input, cancelled), deep copies taken on delivery compared with the kept originals at the end; timing: heads that leave the parser in each kind of state, then ESC, then 40 ms of real silence, then a tail (majority of up to three runs because real time is involved); close: Close() on a parser blocked in a read whose reader then returns forever. non-trivial = strictly inside the stream / any timing case",
-		[]*hx.Stream{trunc, timing, race}, map[string]interface{}{"timing_cases_needing_third_run": unstable, "close_runs": closeRuns}, direct)
+	cfg.Write("C08", "race: child processes stress ESC followed about 10 ms later by the end of input or by \"[A\" (a send on the closed channel panics the child; a late callback garbles ESC [ A); truncate: grammar-generated streams cut at EVERY byte offset, ended by EOF or by a read error (alternating), read in one or two chunks, half of the runs retaining every delivered sequence without Finish (deep copies compared at the end); retain-pair / retain-class / retain-random: sequences of every buffer-carrying kind with and without private marker, intermediates, parameters and data, kept without Finish (all, every other, a random half) by a consumer that may lag behind, followed by sequences that collect intermediates / parameters / data (complete, cut by the end of input, cancelled), deep copies taken on delivery compared with the kept originals at the end; retain: PARTIAL hand-back - bursts of 8..24 sequences of every family that takes storage from the parser's pools (CSIs with 1..7 parameters and sub-parameters, private marker + intermediates, ESC / DCS with intermediates) or carries data, all numbers distinct within a stream, consumer finishes every k-th sequence (k = 2..6, every offset) / a prefix / a random quarter and KEEPS the rest, in step or lagging, any read chunking; each kept sequence is read again after the parser stopped and the case carries its position and that reading (predicate: it reads as delivered); timing: heads that leave the parser in each kind of state, then ESC, then 40 ms of real silence, then a tail (majority of up to three runs because real time is involved); close: Close() on a parser blocked in a read whose reader then returns forever. non-trivial = strictly inside the stream / any timing case",
+		[]*hx.Stream{trunc, retain, timing, race}, map[string]interface{}{"timing_cases_needing_third_run": unstable, "close_runs": closeRuns}, direct)
 }
